@@ -19,8 +19,9 @@ import (
 // ---------------------------------------------------------------------------------------------
 
 type csection struct {
-	lock string
-	id   int
+	lock   string
+	id     int
+	shared bool // a reader section of a sync.RWMutex: may overlap other reader sections of the same mutex
 }
 
 type accEvent struct {
@@ -184,6 +185,31 @@ func registerRace(e *Engine) {
 		p.onLoad, p.onStore = nil, nil
 		return nil
 	}
+	lockEvent := func(p *Path, a []Value, shared bool) {
+		rs := p.race()
+		ptr, _ := unwrapIface(a[0]).(*Pointer)
+		key := lockKey(ptr)
+		th := p.curThread
+		if a[1].(*Term).IsTrue() {
+			for _, h := range rs.held[th] {
+				rs.order = append(rs.order, lockEdge{thread: th, held: h.lock, next: key})
+			}
+			rs.nextCS++
+			rs.held[th] = append(rs.held[th], csection{lock: key, id: rs.nextCS, shared: shared})
+		} else {
+			hs := rs.held[th]
+			for i := len(hs) - 1; i >= 0; i-- {
+				if hs[i].lock == key {
+					rs.held[th] = append(append([]csection{}, hs[:i]...), hs[i+1:]...)
+					break
+				}
+			}
+		}
+	}
+	I[M+"LockEventShared"] = func(p *Path, fn *ssa.Function, a []Value) Value {
+		lockEvent(p, a, true)
+		return nil
+	}
 	I[M+"LockEvent"] = func(p *Path, fn *ssa.Function, a []Value) Value {
 		rs := p.race()
 		ptr, _ := unwrapIface(a[0]).(*Pointer)
@@ -334,7 +360,11 @@ func rw(w bool) string {
 func csSig(cs []csection) string {
 	var ls []string
 	for _, c := range cs {
-		ls = append(ls, c.lock)
+		if c.shared {
+			ls = append(ls, c.lock+"(shared)")
+		} else {
+			ls = append(ls, c.lock)
+		}
 	}
 	sort.Strings(ls)
 	return strings.Join(ls, ",")
@@ -374,7 +404,7 @@ func (p *Path) raceQuery(a, b accEvent) bool {
 	decl(rq+"_B", b.held, rq+"_tb")
 	for i, ca := range a.held {
 		for j, cb := range b.held {
-			if ca.lock == cb.lock {
+			if ca.lock == cb.lock && !(ca.shared && cb.shared) {
 				fmt.Fprintf(&sb, "(assert (or (< %s_A_r%d %s_B_a%d) (< %s_B_r%d %s_A_a%d)))\n", rq, i, rq, j, rq, j, rq, i)
 			}
 		}
@@ -503,14 +533,17 @@ func (p *Path) betweenQuery(w1, w2, y accEvent) bool {
 	decl(t2)
 	decl(ty)
 	// one acquire/release pair per critical section instance of the writing thread
-	type sec struct{ a, r, lock string }
+	type sec struct {
+		a, r, lock string
+		shared     bool
+	}
 	secsA := map[int]sec{}
 	var orderA []int
 	addA := func(cs []csection, t string) {
 		for _, c := range cs {
 			sc, ok := secsA[c.id]
 			if !ok {
-				sc = sec{a: fmt.Sprintf("%s_Aa%d", rq, c.id), r: fmt.Sprintf("%s_Ar%d", rq, c.id), lock: c.lock}
+				sc = sec{a: fmt.Sprintf("%s_Aa%d", rq, c.id), r: fmt.Sprintf("%s_Ar%d", rq, c.id), lock: c.lock, shared: c.shared}
 				decl(sc.a)
 				decl(sc.r)
 				fmt.Fprintf(&sb, "(assert (< %s %s))\n", sc.a, sc.r)
@@ -532,7 +565,7 @@ func (p *Path) betweenQuery(w1, w2, y accEvent) bool {
 	}
 	var secsB []sec
 	for k, c := range y.held {
-		sc := sec{a: fmt.Sprintf("%s_Ba%d", rq, k), r: fmt.Sprintf("%s_Br%d", rq, k), lock: c.lock}
+		sc := sec{a: fmt.Sprintf("%s_Ba%d", rq, k), r: fmt.Sprintf("%s_Br%d", rq, k), lock: c.lock, shared: c.shared}
 		decl(sc.a)
 		decl(sc.r)
 		fmt.Fprintf(&sb, "(assert (and (< %s %s) (< %s %s)))\n", sc.a, ty, ty, sc.r)
@@ -540,7 +573,7 @@ func (p *Path) betweenQuery(w1, w2, y accEvent) bool {
 	}
 	for _, sa := range secsA {
 		for _, sb2 := range secsB {
-			if sa.lock == sb2.lock {
+			if sa.lock == sb2.lock && !(sa.shared && sb2.shared) {
 				fmt.Fprintf(&sb, "(assert (or (< %s %s) (< %s %s)))\n", sa.r, sb2.a, sb2.r, sa.a)
 			}
 		}
